@@ -51,5 +51,43 @@ def r18_1(ctx):
     ctx.check(ok, R, 'draw_target::SolidSource::from(Color)|order', fb.loc(), 'from_unpremultiplied_argb(color.a(), color.r(), color.g(), color.b())', 'From<Color> does not forward (a, r, g, b) in order')
 
 
+def r18_1b(ctx):
+    """every way of turning an (unpremultiplied) Color into a source goes through the premultiplying conversion"""
+    R = 'R18.1'
+    n = 0
+    for q, b in sorted(ctx.F.bodies.items()):
+        an = ctx.an(b)
+        for bi, k2, s in b.statements():
+            if s['k'] == 'assign' and s['rv']['k'] == 'agg' and s['rv'].get('adt') == 'raqote::draw_target::SolidSource' and bi in an.cfg.reach:
+                t = an.rvalue_term(bi, k2, s['rv'])
+                from_color = [x for x in subterms(t) if x[0] == 'call' and isinstance(x[1], str) and x[1].startswith('sw_composite::Color::')]
+                raw = []
+                for fn, ft in t[4]:
+                    if fn in ('r', 'g', 'b'):
+                        ft2 = strip_casts(ft, ('IntToInt',))
+                        if ft2[0] == 'call' and isinstance(ft2[1], str) and ft2[1].startswith('sw_composite::Color::'):
+                            raw.append(fn)
+                n += 1
+                ctx.check(not raw, R, short(q) + '|SolidSource from Color channels', b.loc(s['sp']), 'no SolidSource built from raw Color channels',
+                          '%s builds a SolidSource whose %s channel(s) are the raw (unpremultiplied) channels of a Color: translucent colours give r,g,b > a' % (short(q), '/'.join(raw)))
+    fb = None
+    for q, b in ctx.F.bodies.items():
+        if q.startswith('<raqote::draw_target::Source as std::convert::From<sw_composite::Color>>') or (q.startswith('<raqote::draw_target::Source as') and 'Color' in q and q.endswith('::from')):
+            fb = b
+    if fb is None:
+        ctx.fail(R, 'draw_target::Source::from(Color)|anchor', '-', 'impl From<Color> for Source not found (fail closed)')
+        return
+    rts = shared.ret_terms(ctx, fb)
+    ok = len(rts) == 1 and rts[0][0] == 'agg' and rts[0][3] == 'Solid'
+    if ok:
+        inner = strip_all(rts[0][4][0][1])
+        ok = inner[0] == 'call' and inner[2] and inner[2][0] == ('param', 1)
+        if ok:
+            ci = ctx.an(fb).callee_info(inner[3]) or {}
+            target = ci.get('res') or ci.get('def') or ''
+            ok = target.startswith('<raqote::draw_target::SolidSource as') and target.endswith('::from')
+    ctx.check(ok, R, 'draw_target::Source::from(Color)|premultiplies', fb.loc(), 'Source::from(color) = Solid(SolidSource::from(color))', 'Source::from(Color) does not go through SolidSource::from(color) (the premultiplying conversion): %s' % [fmt(fb, t) for t in rts])
+
+
 def run(ctx):
-    engine.run_rules(ctx, [r18_1, dt.r03_4, dt.r03_6, dt.r03_5])
+    engine.run_rules(ctx, [r18_1, r18_1b, dt.r03_4, dt.r03_6, dt.r03_5])
